@@ -190,6 +190,21 @@ def r18_6(rep, M, rid):
         rep.ok(rid, "get_connected_directions: direction d is connected iff some unit has incoming edges with multiplier +e_d and -e_d")
     else:
         raise AnalysisError("get_connected_directions: conjunction of the +d and -d findings not recognised")
+    # the graph must keep parallel edges: +e_d and -e_d often arrive from the *same* neighbouring unit (cells that repeat once or twice)
+    gattr = {norm(s2.value) for s2 in ast.walk(fn) if isinstance(s2, ast.Assign) and isinstance(s2.value, ast.Attribute) and isinstance(s2.value.value, ast.Name)
+             and s2.value.value.id == "self"} | {norm(c.func.value) for c in ast.walk(fn) if isinstance(c, ast.Call) and isinstance(c.func, ast.Attribute)
+                                                  and c.func.attr in ("in_edges", "nodes") and isinstance(c.func.value, ast.Attribute)}
+    init = M.func(LUC + ".__init__")
+    graphs = [s2 for s2 in ast.walk(init) if isinstance(s2, ast.Assign) and norm(s2.targets[0]) in gattr and isinstance(s2.value, ast.Call)]
+    if not graphs:
+        raise AnalysisError("LinkedUnitCollection.__init__: construction of the search graph not found")
+    kind = M.ext_name(LUC + ".__init__", graphs[0].value.func) or norm(graphs[0].value.func)
+    if kind.endswith("MultiDiGraph"):
+        rep.ok(rid, "the search graph is a MultiDiGraph (parallel edges with different multipliers between the same two units are kept)")
+    else:
+        rep.violation(rid, f"LinkedUnitCollection.__init__: `{norm(graphs[0])}`", f"the search graph is a {kind.split('.')[-1]}: it keeps one edge per ordered pair of units, so when "
+                      "+e_d and -e_d both lead from the same neighbour (prototype cells that repeat once or twice along d) one of them is overwritten, the direction reads as "
+                      "unconnected and a slab is classified Class2D instead of Surface", M.where(LUC + ".__init__", graphs[0]))
     # result polarity: directions left in the candidate set are the *un*connected ones
     rets = [r for r in ast.walk(fn) if isinstance(r, ast.Return) and isinstance(r.value, ast.Name)]
     flags = rets[-1].value.id if rets else None
@@ -231,6 +246,11 @@ def run(rep, ctx):
     rep.rule("R18.6", "a direction is connected iff some unit was reached along +d and -d")
     with rep.guard("R18.6"):
         r18_6(rep, M, "R18.6")
+    rep.rule("R18.8", "the prototype cell of a monolayer found through a 3D cell is reduced to (a, b) and reported with two spans, so the region is 2D (shared with C04)")
+    with rep.guard("R18.8"):
+        from . import c04 as _c04
+        _c04.r04_4(rep, M, "R18.8")
+        _c04.r04_1(rep, M, "R18.8")
     rep.rule("R18.7", "thresholds and radii of the classifier reach the region search; nothing nondeterministic is reachable (shared with C17)")
     with rep.guard("R18.7"):
         c17.r17_6(rep, M, "R18.7")
@@ -240,7 +260,7 @@ def run(rep, ctx):
     rep.floor("R18.3", 8)
     rep.floor("R18.4", 7)
     rep.floor("R18.5", 3)
-    rep.floor("R18.6", 2)
+    rep.floor("R18.6", 3)
     rep.floor("R18.7", 8)
 
 
